@@ -10,6 +10,8 @@ Case forms
       side 1   : L[i].applies_to = U[j]    (j == nu -> None)
       side 2   : L[i].applies_to = Universe()   a fresh universe that nothing but the law set refers to
       "sp"     : per step (cyclic) 1 -> the assignment is spelled obj["laws"] = x / obj["applies_to"] = x
+      "rep"    : per step (cyclic) how many times the assignment is issued in a row (1 or 300)
+      "deep"   : U[0] contains a chain of universes nested that many levels deep
       "lk"     : the first two universes are joined by an edge (they are vertices of an outer graph)
   {"t":"attrs", "wl":..., "mixed":b, "cycles":b, "multipath":b, "multiverse":b}
 """
@@ -83,8 +85,10 @@ def strategy(tier):
     maxlen = 30 if tier == "quick" else 60
 
     hist = st.builds(
-        lambda nu, nl, init, ops, ucls, lcls, sp, lk: {
+        lambda nu, nl, init, ops, ucls, lcls, sp, lk, rep, deep: {
             "t": "hist",
+            **({"rep": rep} if any(x > 1 for x in rep) else {}),
+            **({"deep": deep} if deep else {}),
             **({"sp": sp} if any(sp) else {}),
             **({"lk": True} if lk else {}),
             "nu": nu,
@@ -92,7 +96,8 @@ def strategy(tier):
             "ucls": ucls,
             "lcls": lcls,
             "init": [(x % (nl + 1)) - 1 for x in init[:nu]] + [-1] * (nu - len(init[:nu])),
-            "ops": [[s, i % (nu if s == 0 else nl), (j % 2) if s == 2 else j % ((nl if s == 0 else nu) + 1)] for s, i, j in ops],
+            # (a deeply nested case always ends with an assignment to the outermost universe, from either side)
+            "ops": [[s, i % (nu if s == 0 else nl), (j % 2) if s == 2 else j % ((nl if s == 0 else nu) + 1)] for s, i, j in ops] + ([[0, 0, 0], [1, 1, 0]] if deep else []),
         },
         st.integers(2, 3),
         st.integers(2, 3),
@@ -102,6 +107,8 @@ def strategy(tier):
         st.lists(st.integers(0, 1), min_size=1, max_size=3),
         st.lists(st.sampled_from([0, 0, 1]), min_size=1, max_size=3),
         st.booleans(),
+        st.lists(st.sampled_from([1] * 30 + [300]), min_size=1, max_size=4),
+        st.sampled_from([0] * 14 + [3500]),   # deeper than the interpreter stack even with the extra head-room Hypothesis arranges
     )
     wl = st.one_of(
         st.none(),
@@ -201,6 +208,15 @@ def _check_hist(case):
             require(u.laws is not None and u.laws.applies_to is u, "constructor-post", "default laws not bound")
         inv(f"after constructing U{k}")
     Ux = U + [None]
+    if case.get("deep"):
+        # U[0] contains a chain of universes nested `deep` levels (each one the only member of the previous one)
+        inner = U[0]
+        for _ in range(case["deep"]):
+            nxt = Universe()
+            inner.add_vertex(nxt)
+            inner = nxt
+        del inner, nxt
+        classes.add("universes-nested-%d-deep" % case["deep"])
     if case.get("lk"):
         # the universes are also VERTICES of an outer graph: an edge joins the first two
         from edgegraph.structure import DirectedEdge
@@ -209,13 +225,20 @@ def _check_hist(case):
         classes.add("universes-linked-as-vertices")
     sp = case.get("sp") or [0]
 
+    rep = case.get("rep") or [1]
+
     def put(obj, name, val, step):
-        """The assignment, spelled obj.name = val or (BaseObject item access) obj["name"] = val."""
-        if sp[step % len(sp)]:
-            classes.add("item-spelling")
-            obj[name] = val
-        else:
-            setattr(obj, name, val)
+        """The assignment, spelled obj.name = val or (BaseObject item access) obj["name"] = val; some assignments are
+        issued many times in a row (re-assigning what is already assigned must stay a no-op however often it is done)."""
+        n = rep[step % len(rep)]
+        if n > 1:
+            classes.add("assignment-repeated-%dx" % n)
+        for _ in range(n):
+            if sp[step % len(sp)]:
+                classes.add("item-spelling")
+                obj[name] = val
+            else:
+                setattr(obj, name, val)
 
     for step, (side, i, j) in enumerate(case["ops"]):
         if side == 2:
